@@ -581,7 +581,7 @@ class PedSim:
         if self.in_probe:
             return pa, acc
         if len(ints) != 2:
-            self.viol("no_draw", "pair_allele_swap_step drew %d integers, expected 2" % len(ints))
+            raise HarnessError("pair_allele_swap_step drew %d integers through np.random.randint (expected 2): the swap cannot be checked" % len(ints))
         p, q = int(a["p"]), int(a["q"])
         ip, iq = ints
         if pa != pa:  # nan: no proposal
@@ -595,7 +595,7 @@ class PedSim:
         if changed and not np.array_equal(X, Y):
             self.viol("state_update", "swap step changed the state to something other than the proposed exchange", before=before, after=X, proposed=Y)
         if u is None:
-            self.viol("no_draw", "swap step made a proposal but drew no uniform")
+            raise HarnessError("swap step made a proposal but drew no uniform through np.random.rand: the swap cannot be checked")
         if changed != (u < float(pa)) or bool(acc) != changed:
             self.viol("swap_decision", "prob_accept=%r uniform=%r accept=%r changed=%r" % (float(pa), u, bool(acc), changed))
         nr = [len(o[1]) for o in self.own_reads]
